@@ -93,6 +93,7 @@ func checkC08(c *Ctx) {
 	checkEmbeddedOrder(c, "C08.R1.routed-document", ev, gen)
 
 	checkRouteClash(c, "C08.R1.route-clash", gen)
+	checkLoopTotality(c, "C08.R6.loop-totality", gen, "generator", 20, generatorLoopExits)
 	checkOperationIdentity(c, gen)
 	checkOperationDedup(c, gen)
 	checkCollisionDetection(c, gen)
@@ -593,4 +594,16 @@ func packageRegexpLiteral(pk *packages.Package, e ast.Expr) (string, bool) {
 		}
 	}
 	return "", false
+}
+
+// generatorLoopExits: the reviewed early exits of the generator's loops over input collections.
+var generatorLoopExits = map[string]string{
+	"generator.codeGenOpBuilder.analyzeTags › loop over spec.Tag #1 › continue #1":      "search for the tag object of the chosen tag name: other tags are passed over",
+	"generator.codeGenOpBuilder.analyzeTags › loop over spec.Tag #1 › break #1":         "search: the tag was found and carries x-go-name",
+	"generator.codeGenOpBuilder.analyzeTags › loop over spec.Tag #1 › break #2":         "search: the tag was found and carries x-go-operation-tag",
+	"generator.makeGenDefinitionHierarchy › loop over spec.Schema #1 › continue #1":     "a subtype whose resolved allOf is empty has no branch to re-point at the base type (logged)",
+	"generator.paramMappings › loop over spec.Parameter #1 › continue #1":               "parameter with an `in` outside the five locations: invalid spec, only reachable with --skip-validation (logged)",
+	"generator.paramMappings › loop over spec.Parameter #1 › continue #2":               "unnamed parameter: invalid spec, only reachable with --skip-validation (logged)",
+	"generator.schemaGenContext.buildAllOf › loop over spec.Schema #1 › continue #1":    "end of the arm that handles a $ref'ed allOf member: the member has been merged and appended just above",
+	"generator.schemaGenContext.liftSpecialAllOf › loop over spec.Schema #1 › break #1": "counting candidates for the single-member lift: a second candidate settles that nothing is lifted",
 }
